@@ -11,6 +11,8 @@ LEVEL = {
  "C03": ("proof", "Lean: documented coercion tables stated outright (bool/int/string/time/slice), slice length preservation, untouched-field frame lemma, coercer selection; numeric exactness is C18. Tie: S-coerce grid (every Go type x representation, exhaustive over the grid) and S-engine destinations.", "§7 C03"),
  "C04": ("proof", "Lean: characterisation of absence in both modes and the Default > Required > Optional decision table for primitives, slices and pointers; lifted to every depth by the refinement theorem. Tie: S-engine correspondence on required/not_nil issues, destination and the tests-ran log.", "§7 C04"),
  "C05": ("proof", "Lean: local catch laws (no issue; destination = catch value exactly on failure, parsed value otherwise) and confinement as compositionality over one-hole contexts, for the engine with flags on the shared child context under the regenerated facts, for all visit orders. Tie: S-engine (catch-biased) correspondence; reverting a loop reset breaks `facts_ok` and yields concrete failing inputs.", "§7 C05"),
+ "C07": ("proof", "Lean: constructor completeness by `decide` over the REGENERATED assignment sets (every pooled constructor re-initialises every live field of its type), independence of ALL previous contents (reinit lemma), and the ownership invariant of the issue pool over EVERY history of calls and Collect* hand-backs and every choice sync.Pool may make (induction over the op list); the double free D20 reproduced by the model when CollectMap does not skip $first. Tie: S-pool — probe after planted dirty pool contents and after random call/collect histories vs the same probe on cleared pools, plus pointer-distinctness of returned issues.", "§7 C07"),
+ "C08": ("proof", "PARTIAL. Lean: every interleaving of start/acquire/collect steps of any number of concurrent calls is an op list, so the C07 ownership invariant covers it; two running calls hold disjoint pooled objects; schema objects are only read (regenerated go/ast fact); results do not depend on recycled contents. Data-race freedom in the Go-memory-model sense is not expressible in the model: the -race stress stream (32 goroutines on shared schema objects, per-call result comparison) is supporting evidence.", "§7 C08, §11"),
  "C09": ("proof", "Lean: visit order is a permutation of the declared keys for every oracle; engine = spec for every oracle; the FULL statement is proved false by witness (known finding D19), so the claim is partial. Direct oracle: every case re-run 12x with permuted insertion orders on the real code; D19/D25 are reported as KNOWN-FINDING, any other variation is a violation.", "§7 C09"),
  "C10": ("proof", "Lean: for EVERY issue sequence the map built by ErrsMap.Add files each issue exactly once under the key of its path ($root for the empty path) in arrival order and $first holds exactly the first one (invariant by induction); render = documented join grammar; tag priority; IssuePath override; sanitizers. Partial: tag priority below depth 1 is known finding D17. Tie: S-path on the real PathBuilder/ErrsMap/Sanitize helpers + S-engine paths.", "§7 C10"),
  "C11": ("proof", "Lean: catalogue completeness by kernel `decide` over the REGENERATED catalogue (every built-in test dumped from the compiled library) and language tables: non-empty template, every placeholder bound, code and type present — a finite quantifier checked exhaustively; precedence theorems. Tie: S-msg (exhaustive catalogue x 7 formatter levels x test message) and S-engine/fmt.", "§7 C11"),
